@@ -109,9 +109,12 @@ def tag_blocks(full=True):
         ("[PYTAG[NUM]]", [G(P("PYTAG"), G(P("NUM")))]),
         ("[.PYTAGNUM]", [G(L("."), P("PYTAG"), P("NUM"))]),
         ("-TAGNUM", [L("-"), P("TAG"), P("NUM")]),
+        # a separator between the tag and its number (v1.2.3-rc.1 is valid PEP 440)
+        ("[-TAG.NUM]", [G(L("-"), P("TAG"), L("."), P("NUM"))]),
+        ("[-TAG[.NUM]]", [G(L("-"), P("TAG"), G(L("."), P("NUM")))]),
     ]
     if not full:
-        keep = {"-", "[-TAG]", "[PYTAGNUM]", "[-TAGNUM]"}
+        keep = {"-", "[-TAG]", "[PYTAGNUM]", "[-TAGNUM]", "[-TAG.NUM]"}
         blocks = [b for b in blocks if b[0] in keep]
     return blocks
 
